@@ -104,7 +104,7 @@ def bencode (i : Info) : List Char :=
   ['d'] ++ bencStr ['L','e','n','g','t','h'] ++ bencInt i.length
     ++ bencStr ['N','a','m','e'] ++ bencStr i.name
     ++ bencStr ['P','i','e','c','e','L','e','n','g','t','h'] ++ bencInt i.pieceLength
-    ++ bencStr ['P','i','e','c','e','S','u','m','s'] ++ 'l' :: (i.sums.flatMap fun s => bencInt s) ++ ['e']
+    ++ bencStr ['P','i','e','c','e','S','u','m','s'] ++ 'l' :: (i.sums.flatMap fun (s : Nat) => bencInt (s : Int)) ++ ['e']
     ++ ['e']
 
 /-- assembleMetaInfo -/
